@@ -7,6 +7,7 @@ The bounds are theorems about what the *model loop* returns when it reports conv
 -/
 import MdpaxV.Theory.Bridge
 import MdpaxV.Theory.GaussSeidel
+import MdpaxV.Theory.PolicyValue
 import MdpaxV.Props.C08
 set_option linter.unusedSectionVars false
 namespace MdpaxV.C01
@@ -381,6 +382,123 @@ theorem semiasync_solve_near_optimal (S : Setting P c γ) (hw : IdxWF P) (perms 
   rw [hvals] at hpl' ⊢
   subst hpl'
   exact semiasync_maxdiff_near_optimal P c γ ε S hw (perms n) (hperms n) choose V0 hV0 htest W U hW hU i
+
+/-! ### closed forms: the optimal value function and every policy's value exist (in every ordered field)
+
+The theorems above quantify over *every* fixed point `W` of the optimality operator and `U` of the returned policy's
+evaluation operator.  The following discharge that quantification: `W` and `U` exist, are unique, `W` dominates the value of
+every stationary deterministic policy and is attained by one — so `W` *is* the optimal value function and `U` *is* the exact
+discounted value of the returned policy. -/
+
+/-- `W` is the optimal value function: a fixed point of the optimality operator that dominates every policy's value and is the
+    value of some policy -/
+def IsOptimalValue (W : Fin P.nS → α) : Prop :=
+  Top P γ W = W ∧
+  (∀ pol : Fin P.nS → Nat, (∀ i, pol i < P.nA) → ∀ U, Tpol P γ pol U = U → ∀ i, U i ≤ W i) ∧
+  ∃ pol : Fin P.nS → Nat, (∀ i, pol i < P.nA) ∧ Tpol P γ pol W = W
+
+/-- the optimal value function exists and is unique -/
+theorem optimal_value_exists_unique (S : Setting P c γ) : ∃! W, IsOptimalValue P γ W := by
+  obtain ⟨W, hW, pol, hpol, hpW⟩ := optimal_value_exists P γ S.hγ0.le S.hγ1 S.stoch S.valid.1 S.hA
+  refine ⟨W, ⟨hW, fun pol' hpol' U hU i => optimal_dominates P γ S.hγ0.le S.hγ1 S.stoch S.valid.1 S.hA W hW pol' hpol' U hU i,
+    pol, hpol, hpW⟩, ?_⟩
+  intro W' hW'
+  exact optimal_value_unique P γ S.hγ0.le S.hγ1 S.stoch S.valid.1 S.hA W' W hW'.1 hW
+
+/-- every policy with valid action indices has exactly one discounted value function -/
+theorem policy_value_exists_unique (S : Setting P c γ) (pol : Fin P.nS → Nat) (hpol : ∀ i, pol i < P.nA) :
+    ∃! U, Tpol P γ pol U = U := by
+  obtain ⟨U, hU⟩ := policy_value_exists P γ S.hγ0.le S.hγ1 S.stoch S.valid.1 pol hpol
+  exact ⟨U, hU, fun U' hU' => policy_value_unique P γ S.hγ0.le S.hγ1 S.stoch S.valid.1 pol hpol U' U hU' hU⟩
+
+theorem fixed_points_exist (S : Setting P c γ) (pol : Fin P.nS → Nat) (hpol : ∀ i, pol i < P.nA) :
+    ∃ W U, IsOptimalValue P γ W ∧ Tpol P γ pol U = U := by
+  obtain ⟨W, hW, _⟩ := optimal_value_exists_unique P c γ S
+  obtain ⟨U, hU, _⟩ := policy_value_exists_unique P c γ S pol hpol
+  exact ⟨W, U, hW, hU⟩
+
+/-- **Value iteration, span test, closed form**: on reported convergence the optimal value function `W` and the exact value
+    `U` of the returned policy exist, and `0 ≤ W − U < ε` at every state; in particular no policy is better than the returned
+    one by ε or more anywhere -/
+theorem vi_span_near_optimal_closed (S : Setting P c γ) (f k : Nat) (s : SState α) (hs : s.values.length = P.nS)
+    (hc : (viSolve P c γ (ε * (1 - γ) / γ) .span f k s).converged = true)
+    (pl : List Nat) (hpl : (viSolve P c γ (ε * (1 - γ) / γ) .span f k s).state.policy = some pl) :
+    ∃ W U, IsOptimalValue P γ W ∧ Tpol P γ (polFn P.nS pl) U = U ∧ (∀ i, 0 ≤ W i - U i ∧ W i - U i < ε) ∧
+      ∀ pol' : Fin P.nS → Nat, (∀ i, pol' i < P.nA) → ∀ U', Tpol P γ pol' U' = U' → ∀ i, U' i - U i < ε := by
+  obtain ⟨V0, hV0, hvals, htest, hpol⟩ := vi_converged_shape P c S.valid γ _ .span f k s hs hc
+  have hV1len : (viSolve P c γ (ε * (1 - γ) / γ) .span f k s).state.values.length = P.nS := by
+    rw [hvals]; exact sweep_length P c S.valid γ _ 0
+  have hple : pl = policy P c γ (viSolve P c γ (ε * (1 - γ) / γ) .span f k s).state.values 0 := by
+    rw [hpl] at hpol; exact Option.some.inj hpol
+  obtain ⟨_, hact⟩ := policy_greedy P c S.valid S.hA γ _ hV1len
+  rw [← hple] at hact
+  obtain ⟨W, U, hW, hU⟩ := fixed_points_exist P c γ S (polFn P.nS pl) hact
+  have hb := fun i => vi_span_near_optimal P c γ ε S f k s hs hc pl hpl W U hW.1 hU i
+  refine ⟨W, U, hW, hU, hb, fun pol' hpol' U' hU' i => ?_⟩
+  have := hW.2.1 pol' hpol' U' hU' i
+  have := (hb i).2
+  linarith
+
+/-- **Value iteration, max_diff test, closed form** -/
+theorem vi_maxdiff_near_optimal_closed (S : Setting P c γ) (f k : Nat) (s : SState α) (hs : s.values.length = P.nS)
+    (hc : (viSolve P c γ (ε * (1 - γ) / γ) .maxDiff f k s).converged = true)
+    (pl : List Nat) (hpl : (viSolve P c γ (ε * (1 - γ) / γ) .maxDiff f k s).state.policy = some pl) :
+    ∃ W U, IsOptimalValue P γ W ∧ Tpol P γ (polFn P.nS pl) U = U ∧
+      ∀ i, |toFn P.nS (viSolve P c γ (ε * (1 - γ) / γ) .maxDiff f k s).state.values i - W i| < ε ∧
+        0 ≤ W i - U i ∧ W i - U i < 2 * ε := by
+  obtain ⟨V0, hV0, hvals, htest, hpol⟩ := vi_converged_shape P c S.valid γ _ .maxDiff f k s hs hc
+  have hV1len : (viSolve P c γ (ε * (1 - γ) / γ) .maxDiff f k s).state.values.length = P.nS := by
+    rw [hvals]; exact sweep_length P c S.valid γ _ 0
+  have hple : pl = policy P c γ (viSolve P c γ (ε * (1 - γ) / γ) .maxDiff f k s).state.values 0 := by
+    rw [hpl] at hpol; exact Option.some.inj hpol
+  obtain ⟨_, hact⟩ := policy_greedy P c S.valid S.hA γ _ hV1len
+  rw [← hple] at hact
+  obtain ⟨W, U, hW, hU⟩ := fixed_points_exist P c γ S (polFn P.nS pl) hact
+  exact ⟨W, U, hW, hU, fun i => vi_maxdiff_near_optimal P c γ ε S f k s hs hc pl hpl W U hW.1 hU i⟩
+
+/-- **Policy iteration, closed form** (same explicit hypothesis on the last evaluation as `pi_near_optimal`) -/
+theorem pi_near_optimal_closed (S : Setting P c γ) (hw : IdxWF P) (t : ConvTest) (budget : Nat) (reset : Option (List α))
+    (s : SState α) (pl : List Nat) (hsp : s.policy = some pl) (hpll : pl.length = P.nS)
+    (hstop : (piStep P c γ (ε * (1 - γ) / γ) t budget reset s).2 = true)
+    (V : List α) (hVdef : V = (piStep P c γ (ε * (1 - γ) / γ) t budget reset s).1.values) (hV : V.length = P.nS)
+    (heval : convMeasure t (evalSweep P c γ pl V 0) V < ε * (1 - γ) / γ) :
+    ∃ W U, IsOptimalValue P γ W ∧ Tpol P γ (polFn P.nS pl) U = U ∧ ∀ i,
+      0 ≤ W i - U i ∧
+      (t = .span → W i - U i < ε / γ) ∧
+      (t = .maxDiff → W i - U i < 2 * ε / γ ∧ |toFn P.nS V i - U i| < ε / γ) := by
+  have hnc := (C08.piStep_done_iff P c γ _ t budget reset s).mp hstop
+  simp only [hsp, Option.getD_some] at hnc
+  have hVv : V = evaluate P c γ (ε * (1 - γ) / γ) t pl budget (reset.getD s.values) := by
+    rw [hVdef]; simp [piStep, hsp]
+  rw [← hVv] at hnc
+  have hpeq : policy P c γ V 0 = pl := by
+    apply nChanged_eq_zero _ _ _ hnc
+    rw [C02.policy_eq_map_greedy P c S.valid]; simp [hpll]
+  obtain ⟨_, hact⟩ := policy_greedy P c S.valid S.hA γ V hV
+  rw [hpeq] at hact
+  obtain ⟨W, U, hW, hU⟩ := fixed_points_exist P c γ S (polFn P.nS pl) hact
+  refine ⟨W, U, hW, hU, fun i => ?_⟩
+  exact (pi_near_optimal P c γ ε S hw t budget reset s pl hsp hpll hstop V hVdef hV heval W U hW.1 hU i).2.2
+
+/-- **Semi-asynchronous value iteration, max_diff test, whole `solve()` call, closed form** -/
+theorem semiasync_solve_near_optimal_closed (S : Setting P c γ) (hw : IdxWF P) (perms : Nat → Option (List Nat))
+    (hperms : ∀ n, (orderOf' c.n (perms n)).Perm (List.range c.n)) (choose : Nat → Bool) (f k : Nat) (s : SState α)
+    (hs : s.values.length = P.nS)
+    (hc : (semiSolve P c γ (ε * (1 - γ) / γ) .maxDiff perms choose f k s).converged = true)
+    (pl : List Nat) (hpl : (semiSolve P c γ (ε * (1 - γ) / γ) .maxDiff perms choose f k s).state.policy = some pl) :
+    ∃ W U, IsOptimalValue P γ W ∧ Tpol P γ (polFn P.nS pl) U = U ∧ ∀ i,
+      |toFn P.nS (semiSolve P c γ (ε * (1 - γ) / γ) .maxDiff perms choose f k s).state.values i - W i| < ε ∧
+      0 ≤ W i - U i ∧ W i - U i < 2 * γ * ε / (1 - γ) := by
+  obtain ⟨V0, n, hV0, hvals, htest, hpol⟩ :=
+    semi_converged_shape P c γ S.valid (ε * (1 - γ) / γ) .maxDiff perms hperms choose f k s hs hc
+  have hV1len : (semiSolve P c γ (ε * (1 - γ) / γ) .maxDiff perms choose f k s).state.values.length = P.nS := by
+    rw [hvals]; exact semiSweep_length P c γ S.valid V0 _ (hperms n) choose 0
+  have hple : pl = policy P c γ (semiSolve P c γ (ε * (1 - γ) / γ) .maxDiff perms choose f k s).state.values 0 := by
+    rw [hpl] at hpol; exact Option.some.inj hpol
+  obtain ⟨_, hact⟩ := policy_greedy P c S.valid S.hA γ _ hV1len
+  rw [← hple] at hact
+  obtain ⟨W, U, hW, hU⟩ := fixed_points_exist P c γ S (polFn P.nS pl) hact
+  exact ⟨W, U, hW, hU, fun i => semiasync_solve_near_optimal P c γ ε S hw perms hperms choose f k s hs hc pl hpl W U hW.1 hU i⟩
 
 /-! non-vacuity: the 2-state example is a `Setting`; its optimal value is an explicit fixed point over ℚ -/
 example : Setting C02.exP ⟨2, 1, 1⟩ (1/2 : Rat) :=
